@@ -1,13 +1,13 @@
 ------------------------------ MODULE ApaCache ------------------------------
 (***************************************************************************)
 (* C10 part A, unbounded histories: an inductive invariant of the repaired *)
-(* cache design (the cache entry keeps the key's type alive), discharged   *)
-(* by Apalache:                                                            *)
+(* cache design (the cache entry keeps the key's type alive; the number of *)
+(* registered global handlers is part of the key), discharged by Apalache: *)
 (*    CInit => IndInv                       (--init=CInit  --length=0)     *)
 (*    IndInv /\ CNext => IndInv'            (--init=IndInit --length=1)    *)
 (* and IndInv contains Transparent and CacheSound.  Same actions as        *)
-(* PaneCache.tla (PinKeyArgs = TRUE), written here with Apalache type      *)
-(* annotations and without the TLC-only level bound.                       *)
+(* PaneCache.tla (PinKeyArgs = TRUE, RegDesign = "keyed"), written here    *)
+(* with Apalache type annotations and without the TLC-only level bound.    *)
 (***************************************************************************)
 EXTENDS Integers, Sequences, FiniteSets
 
@@ -15,6 +15,8 @@ Addr == {1, 2, 3}
 Desc == {"ListStr", "DictStrFloat", "TupIntStr"}
 HS == {"h0", "h1"}
 Threads == {1, 2}
+MaxReg == 2
+Regs == 0..MaxReg
 Free == "free"
 
 VARIABLES
@@ -24,81 +26,93 @@ VARIABLES
   live,
   \* @type: Set(Int);
   pins,
-  \* @type: <<Int, Str>> -> <<Str, Str>>;
+  \* @type: <<Int, Str, Int>> -> <<Str, Str, Int>>;
   cache,
   \* @type: Int -> Str;
   pc,
-  \* @type: Int -> {a: Int, h: Str, want: Str};
+  \* @type: Int -> {a: Int, h: Str, want: Str, r0: Int};
   req,
-  \* @type: Int -> <<Str, Str>>;
+  \* @type: Int -> <<Str, Str, Int>>;
   built,
-  \* @type: Int -> <<Str, Str>>;
-  ret
+  \* @type: Int -> <<Str, Str, Int>>;
+  ret,
+  \* @type: Int;
+  reg
 
-\* @type: <<Str, Str>>;
-NoConv == <<"none", "none">>
-\* @type: (Str, Str) => <<Str, Str>>;
-Fresh(d, h) == <<d, h>>
-\* @type: {a: Int, h: Str, want: Str};
-NoReq == [a |-> 0, h |-> "none", want |-> "none"]
+\* @type: <<Str, Str, Int>>;
+NoConv == <<"none", "none", 0>>
+\* @type: (Str, Str, Int) => <<Str, Str, Int>>;
+Fresh(d, h, r) == <<d, h, r>>
+\* @type: {a: Int, h: Str, want: Str, r0: Int};
+NoReq == [a |-> 0, h |-> "none", want |-> "none", r0 |-> 0]
 
 CInit == /\ heap = [a \in Addr |-> Free] /\ live = {} /\ pins = {}
-         /\ cache = [k \in Addr \X HS |-> NoConv]
+         /\ cache = [k \in Addr \X HS \X Regs |-> NoConv]
          /\ pc = [t \in Threads |-> "idle"] /\ req = [t \in Threads |-> NoReq]
          /\ built = [t \in Threads |-> NoConv] /\ ret = [t \in Threads |-> NoConv]
+         /\ reg = 0
 
 Alloc(a, d) == /\ heap[a] = Free
                /\ heap' = [heap EXCEPT ![a] = d] /\ live' = live \union {a}
-               /\ UNCHANGED <<pins, cache, pc, req, built, ret>>
+               /\ UNCHANGED <<pins, cache, pc, req, built, ret, reg>>
 InUse(a) == \E t \in Threads : pc[t] /= "idle" /\ req[t].a = a
 Drop(a) == /\ a \in live /\ ~InUse(a)
            /\ live' = live \ {a}
            /\ heap' = IF a \in pins THEN heap ELSE [heap EXCEPT ![a] = Free]
-           /\ UNCHANGED <<pins, cache, pc, req, built, ret>>
+           /\ UNCHANGED <<pins, cache, pc, req, built, ret, reg>>
 Call(t, a, h) == /\ pc[t] = "idle" /\ a \in live
-                 /\ req' = [req EXCEPT ![t] = [a |-> a, h |-> h, want |-> heap[a]]]
+                 /\ req' = [req EXCEPT ![t] = [a |-> a, h |-> h, want |-> heap[a], r0 |-> reg]]
                  /\ pc' = [pc EXCEPT ![t] = "key"]
-                 /\ UNCHANGED <<heap, live, pins, cache, built, ret>>
+                 /\ UNCHANGED <<heap, live, pins, cache, built, ret, reg>>
 Probe(t) == /\ pc[t] = "key"
-            /\ LET k == <<req[t].a, req[t].h>> IN
+            /\ LET k == <<req[t].a, req[t].h, req[t].r0>> IN
                IF cache[k] /= NoConv
                THEN ret' = [ret EXCEPT ![t] = cache[k]] /\ pc' = [pc EXCEPT ![t] = "done"]
                ELSE ret' = ret /\ pc' = [pc EXCEPT ![t] = "miss"]
-            /\ UNCHANGED <<heap, live, pins, cache, req, built>>
+            /\ UNCHANGED <<heap, live, pins, cache, req, built, reg>>
 Build(t) == /\ pc[t] = "miss"
-            /\ built' = [built EXCEPT ![t] = Fresh(heap[req[t].a], req[t].h)]
+            /\ built' = [built EXCEPT ![t] = Fresh(heap[req[t].a], req[t].h, reg)]
             /\ pc' = [pc EXCEPT ![t] = "built"]
-            /\ UNCHANGED <<heap, live, pins, cache, req, ret>>
+            /\ UNCHANGED <<heap, live, pins, cache, req, ret, reg>>
 Store(t) == /\ pc[t] = "built"
-            /\ cache' = [cache EXCEPT ![<<req[t].a, req[t].h>>] = built[t]]
+            /\ cache' = [cache EXCEPT ![<<req[t].a, req[t].h, req[t].r0>>] = built[t]]
             /\ pins' = pins \union {req[t].a}
             /\ ret' = [ret EXCEPT ![t] = built[t]]
             /\ pc' = [pc EXCEPT ![t] = "done"]
-            /\ UNCHANGED <<heap, live, req, built>>
+            /\ UNCHANGED <<heap, live, req, built, reg>>
 Return(t) == /\ pc[t] = "done"
              /\ pc' = [pc EXCEPT ![t] = "idle"] /\ req' = [req EXCEPT ![t] = NoReq]
-             /\ UNCHANGED <<heap, live, pins, cache, built, ret>>
+             /\ UNCHANGED <<heap, live, pins, cache, built, ret, reg>>
+Register == /\ reg < MaxReg /\ reg' = reg + 1
+            /\ UNCHANGED <<heap, live, pins, cache, pc, req, built, ret>>
 CNext == \/ \E a \in Addr, d \in Desc : Alloc(a, d)
          \/ \E a \in Addr : Drop(a)
          \/ \E t \in Threads, a \in Addr, h \in HS : Call(t, a, h)
          \/ \E t \in Threads : Probe(t) \/ Build(t) \/ Store(t) \/ Return(t)
+         \/ Register
 
-Convs == {NoConv} \union {Fresh(d, h) : d \in Desc \union {Free}, h \in HS}
-Reqs == {NoReq} \union [a : Addr, h : HS, want : Desc \union {Free}]
+Convs == {NoConv} \union {Fresh(d, h, r) : d \in Desc \union {Free}, h \in HS, r \in Regs}
+Reqs == {NoReq} \union [a : Addr, h : HS, want : Desc \union {Free}, r0 : Regs]
 PCs == {"idle", "key", "miss", "built", "done"}
 TypeOK == /\ heap \in [Addr -> Desc \union {Free}] /\ live \in SUBSET Addr /\ pins \in SUBSET Addr
-          /\ cache \in [Addr \X HS -> Convs] /\ pc \in [Threads -> PCs] /\ req \in [Threads -> Reqs]
-          /\ built \in [Threads -> Convs] /\ ret \in [Threads -> Convs]
+          /\ cache \in [Addr \X HS \X Regs -> Convs] /\ pc \in [Threads -> PCs] /\ req \in [Threads -> Reqs]
+          /\ built \in [Threads -> Convs] /\ ret \in [Threads -> Convs] /\ reg \in Regs
 IndInit == TypeOK
 
-Transparent == \A t \in Threads : pc[t] = "done" => ret[t] = Fresh(req[t].want, req[t].h)
-CacheSound == \A a \in Addr, h \in HS : cache[<<a, h>>] /= NoConv => cache[<<a, h>>] = Fresh(heap[a], h)
+(* a completed lookup returns what a fresh build would, for a registry that was current during the call *)
+Transparent == \A t \in Threads : pc[t] = "done" =>
+                  \E r \in Regs : r >= req[t].r0 /\ r <= reg /\ ret[t] = Fresh(req[t].want, req[t].h, r)
+CacheSound == \A a \in Addr, h \in HS, r \in Regs : cache[<<a, h, r>>] /= NoConv =>
+                 \E b \in Regs : b >= r /\ b <= reg /\ cache[<<a, h, r>>] = Fresh(heap[a], h, b)
 IndInv ==
   /\ TypeOK
   /\ \A a \in live : heap[a] /= Free
   /\ \A a \in pins : heap[a] /= Free
-  /\ \A a \in Addr, h \in HS : cache[<<a, h>>] /= NoConv => (a \in pins /\ cache[<<a, h>>] = Fresh(heap[a], h))
-  /\ \A t \in Threads : pc[t] /= "idle" => (req[t].a \in live /\ req[t].h \in HS /\ req[t].want = heap[req[t].a])
-  /\ \A t \in Threads : pc[t] = "built" => built[t] = Fresh(req[t].want, req[t].h)
+  /\ \A a \in Addr, h \in HS, r \in Regs : cache[<<a, h, r>>] /= NoConv =>
+        (a \in pins /\ \E b \in Regs : b >= r /\ b <= reg /\ cache[<<a, h, r>>] = Fresh(heap[a], h, b))
+  /\ \A t \in Threads : pc[t] /= "idle" =>
+        (req[t].a \in live /\ req[t].h \in HS /\ req[t].want = heap[req[t].a] /\ req[t].r0 <= reg)
+  /\ \A t \in Threads : pc[t] = "built" =>
+        \E b \in Regs : b >= req[t].r0 /\ b <= reg /\ built[t] = Fresh(req[t].want, req[t].h, b)
   /\ Transparent
 =============================================================================
